@@ -39,6 +39,8 @@ structure ReqSpec where
 
 inductive ClientAct where
   | send (spec : ReqSpec)                                 -- ares_send_nolock(…, callback = this client's)
+  | sendSlot (spec : ReqSpec) (slot : Nat)                -- the same, remembering the query id (0: qid_a, 1: qid_aaaa)
+  | noRetry (qid : Nat)                                   -- terminate_retries: query->no_retries = TRUE
   | finish (st : Status) (timeouts : Nat) (digest : String) -- user callback, then release the client
   deriving Repr, Inhabited
 
@@ -98,10 +100,122 @@ def searchNextAct (c : Client) : Client × List ClientAct :=
     ({ c with names := rest, lastName := n },
      [.send { name := n, qtype := c.qtype, qclass := c.qclass, rd := c.rd, edns := c.edns }])
 
+/-! ### ares_getaddrinfo -/
+
+def hexToText (h : String) : String :=
+  let rec go : List Char → List Char
+    | a :: b :: r =>
+      let v (c : Char) : Nat := if c.isDigit then c.toNat - 48 else if c.toNat ≥ 97 then c.toNat - 87 else c.toNat - 55
+      Char.ofNat (v a * 16 + v b) :: go r
+    | _ => []
+  String.ofList (go h.toList)
+
+def toHexNat (n : Nat) : String := String.ofList (Nat.toDigits 16 n)
+
+/-- text of the address carried by answer `i` of the virtual server's reply (see harness/h_sim.c) -/
+def answerAddr (qtype mark i : Nat) : String :=
+  if qtype == 28 then
+    let g6 := mark / 256 % 256
+    let g7 := (mark % 256) * 256 + (i + 1)
+    if g6 == 0 then s!"2001::{toHexNat g7}" else s!"2001::{toHexNat g6}:{toHexNat g7}"
+  else s!"10.{mark / 256 % 256}.{mark % 256}.{i + 1}"
+
+/-- is the text an IPv4 literal as fake_addrinfo sees it (digits and exactly three dots, each part ≤ 255) -/
+def isV4Literal (h : String) : Bool :=
+  let t := hexToText h
+  let parts := t.splitOn "."
+  parts.length == 4 && parts.all (fun p => !p.isEmpty && p.all Char.isDigit && p.length ≤ 3 && p.toNat! ≤ 255)
+
+/-- ares_is_localhost -/
+def isLocalhost (h : String) : Bool :=
+  let n := hexLower h
+  n == "6c6f63616c686f7374" || (n.length ≥ 20 && (n.drop (n.length - 20)).toString == "2e6c6f63616c686f7374")
+
+def gaiDigest (c : Client) : String :=
+  "ai=" ++ String.join (c.addrs.map (· ++ ";")) ++ (if c.aiName == "" then "" else "name=" ++ hexToText c.aiName)
+
+/-- next_dns_lookup -/
+def gaiNextDns (cfg : Cfg) (c : Client) : Option (Client × List ClientAct) :=
+  match c.names with
+  | [] => none
+  | n :: rest =>
+    let spec (t : Nat) : ReqSpec := { name := n, qtype := t, qclass := 1, rd := !cfg.norecurse, edns := cfg.ednsFlag }
+    let c := { c with names := rest, lastName := n }
+    if c.family == 2 then some ({ c with remaining := c.remaining + 1 }, [.sendSlot (spec 1) 0])
+    else if c.family == 10 then some ({ c with remaining := c.remaining + 1 }, [.sendSlot (spec 28) 1])
+    else some ({ c with remaining := c.remaining + 2 }, [.sendSlot (spec 1) 0, .sendSlot (spec 28) 1])
+
+/-- next_lookup (the hosts file is empty in the simulator and localhost names are not generated) -/
+def gaiNextLookup (cfg : Cfg) : Nat → Client → Status → Client × List ClientAct
+  | 0, c, st => (c, [.finish st c.timeouts "ai="])
+  | fuel + 1, c, st =>
+    match c.lookups with
+    | 'b' :: rest =>
+      if !isLocalhost c.name then
+        match gaiNextDns cfg c with
+        | some r => r
+        | none => gaiNextLookup cfg fuel { c with lookups := rest } st
+      else gaiNextLookup cfg fuel { c with lookups := rest } st
+    | 'f' :: rest => gaiNextLookup cfg fuel { c with lookups := rest } st
+    | _ => (c, [.finish st c.timeouts "ai="])
+
+def gaiStart (cfg : Cfg) (id tok : Nat) (react : List Nat) (spec : ReqSpec) (family : Nat) : Client × List ClientAct :=
+  let c : Client := { id := id, kind := "gai", tok := tok, react := react, name := spec.name, family := family,
+                      lookups := cfg.lookups.toList }
+  if family != 0 && family != 2 && family != 10 then (c, [.finish .notimp 0 "ai="])
+  else if isOnion spec.name then (c, [.finish .notfound 0 "ai="])
+  else if isV4Literal spec.name then
+    -- fake_addrinfo (an IPv4 literal is returned whatever the family: F32-C13)
+    let t := hexToText spec.name
+    (c, [.finish .ok 0 s!"ai={t}/0;cn=>{t}/0;"])
+  else gaiNextLookup cfg 8 { c with names := searchNames cfg spec.name } .connrefused
+
+/-- host_callback (behind ares_query_nolock's status conversion) -/
+def gaiOnCb (cfg : Cfg) (c : Client) (st0 : Status) (timeouts : Nat) (rec : Option Reply) : Client × List ClientAct :=
+  let st : Status := if st0 != .ok then st0 else
+    match rec with
+    | some r => replyToStatus r.rcode r.an
+    | none => st0
+  let c := { c with timeouts := c.timeouts + timeouts, remaining := c.remaining - 1 }
+  -- ares_parse_into_addrinfo
+  let (c, addinfo, acts) : Client × Status × List ClientAct :=
+    match st, rec with
+    | .ok, some r =>
+      if r.an == 0 then (c, .nodata, []) else
+      let isA := r.qtype == 1
+      let isAAAA := r.qtype == 28
+      if !isA && !isAAAA then
+        -- the virtual server answers other types with A records too
+        let nodes := (List.range r.an).map fun i => s!"{answerAddr 1 r.mark i}/{r.ttls.getD i (r.ttls.getLastD 300)}"
+        let c := { c with addrs := c.addrs ++ nodes, hasV4 := true,
+                          aiName := if hexLower c.aiName == hexLower r.name && c.aiName != "" then c.aiName else r.name }
+        (c, .ok, [])
+      else
+        let nodes := (List.range r.an).map fun i => s!"{answerAddr r.qtype r.mark i}/{r.ttls.getD i (r.ttls.getLastD 300)}"
+        let c := { c with addrs := c.addrs ++ nodes, hasV4 := c.hasV4 || isA,
+                          aiName := if hexLower c.aiName == hexLower r.name && c.aiName != "" then c.aiName else r.name }
+        -- terminate_retries on the other request once an IPv4 address is known
+        let other := if r.id == c.qidA then c.qidAAAA else c.qidA
+        (c, .ok, if c.hasV4 && c.remaining != 0 then [.noRetry other] else [])
+    | _, _ => (c, .ok, [])
+  if c.remaining != 0 then (c, acts) else
+  if st == .destruction || st == .cancelled then (c, acts ++ [.finish st c.timeouts "ai="])
+  else if addinfo != .ok && addinfo != .nodata then (c, acts ++ [.finish addinfo c.timeouts "ai="])
+  else if !c.addrs.isEmpty then (c, acts ++ [.finish .ok c.timeouts (gaiDigest c)])
+  else if st == .notfound || st == .nodata || addinfo == .nodata then
+    let c := if st == .nodata || addinfo == .nodata then { c with nodataCnt := c.nodataCnt + 1 } else c
+    let (c, a) := gaiNextLookup cfg 8 c (if c.nodataCnt != 0 then .nodata else st)
+    (c, acts ++ a)
+  else if (st == .servfail || st == .refused) && labelCnt c.lastName == 1 then
+    let (c, a) := gaiNextLookup cfg 8 c (if c.nodataCnt != 0 then .nodata else st)
+    (c, acts ++ a)
+  else (c, acts ++ [.finish st c.timeouts "ai="])
+
 /-- entry points: ares_query_nolock, ares_search_int -/
-def clientStart (cfg : Cfg) (id : Nat) (kind : String) (tok : Nat) (react : List Nat) (spec : ReqSpec) :
-    Client × List ClientAct :=
-  if kind == "query" then
+def clientStart (cfg : Cfg) (id : Nat) (kind : String) (tok : Nat) (react : List Nat) (spec : ReqSpec)
+    (family : Nat := 0) : Client × List ClientAct :=
+  if kind == "gai" then gaiStart cfg id tok react spec family
+  else if kind == "query" then
     ({ id := id, kind := kind, tok := tok, react := react },
      [.send { spec with rd := !cfg.norecurse, edns := cfg.ednsFlag }])
   else
@@ -111,9 +225,10 @@ def clientStart (cfg : Cfg) (id : Nat) (kind : String) (tok : Nat) (react : List
     else searchNextAct { c with names := searchNames cfg spec.name }
 
 /-- completion callbacks: ares_query_dnsrec_cb, search_callback -/
-def clientOnCb (_cfg : Cfg) (c : Client) (st : Status) (timeouts : Nat) (rec : Option Reply) :
+def clientOnCb (cfg : Cfg) (c : Client) (st : Status) (timeouts : Nat) (rec : Option Reply) :
     Client × List ClientAct :=
-  if c.kind == "query" then
+  if c.kind == "gai" then gaiOnCb cfg c st timeouts rec
+  else if c.kind == "query" then
     let st' := if st != .ok then st else
       match rec with
       | some r => replyToStatus r.rcode r.an
